@@ -174,7 +174,7 @@ func serveReuse(p *Program, sids [2]string, store dbLike, inputs [2][]string, ps
 // VERIF_KEPT_INSERT=1 (set by the C17 check): histories with refused inputs are also served through a kept flushing persister
 var keptInsert = os.Getenv("VERIF_KEPT_INSERT") == "1"
 
-var refusedInputs = []string{"\x00", " 1", "*", "_", "<", "-1", "\xff", "\n", "é", "1\n", "0\r\n", "bob\nmallory", "2\n2"}
+var refusedInputs = []string{"\x00", " 1", "*", "_", "<", "-1", "\xff", "\n", "é", "1\n", "0\r\n", "bob\nmallory", "2\n2", "#", "#x7", "# 7", "#7\n"}
 
 // vise-pairs <trace-out> <programs> <sessions-per-program> <max-requests> <stores: mem[,fs][,pg]>
 func cmdVisePairs(args []string) error {
